@@ -188,13 +188,13 @@ fn run_field<N: Fld>(case: &Case, mut o: Obs) -> Outcome {
         let i_ab = integ(ia, ib);
         let i_bc = integ(ib, ic);
         let i_ac = integ(ia, ic);
-        if !((i_ab - (fb - fa)).norm() <= g * (sa + sb)) {
+        if !((i_ab - (fb - fa)).norm() <= g * (sa + sb) + 1e-290) {
             return o.fail(format!("integrate(a,b) = {i_ab:e} but F(b)-F(a) = {:e}", fb - fa));
         }
-        if !((i_ab + i_bc - i_ac).norm() <= g * (sa + 2.0 * sb + 2.0 * sc + sa)) {
+        if !((i_ab + i_bc - i_ac).norm() <= g * (sa + 2.0 * sb + 2.0 * sc + sa) + 1e-290) {
             return o.fail(format!("integrals not additive: {i_ab:e} + {i_bc:e} != {i_ac:e}"));
         }
-        if !((integ(ib, ia) + i_ab).norm() <= g * 2.0 * (sa + sb)) {
+        if !((integ(ib, ia) + i_ab).norm() <= g * 2.0 * (sa + sb) + 1e-290) {
             return o.fail("integrate(b,a) != -integrate(a,b)");
         }
         let _ = (fc, sc);
@@ -207,11 +207,12 @@ fn run_field<N: Fld>(case: &Case, mut o: Obs) -> Outcome {
             }
             let (fd, sd) = f(id);
             let i_ad = integ(ia, id);
-            if !((i_ad - (fd - fa)).norm() <= g * (sa + sd)) {
+            // (1e-290: differences of denormal size carry no relative accuracy)
+            if !((i_ad - (fd - fa)).norm() <= g * (sa + sd) + 1e-290) {
                 return o.fail(format!("short panel: integrate(a, a+{delta:e}) = {i_ad:e} but F(a+d)-F(a) = {:e} (allowed {:e})", fd - fa, g * (sa + sd)));
             }
             let i_db = integ(id, ib);
-            if !((i_ad + i_db - i_ab).norm() <= g * (2.0 * sa + 2.0 * sd + 2.0 * sb)) {
+            if !((i_ad + i_db - i_ab).norm() <= g * (2.0 * sa + 2.0 * sd + 2.0 * sb) + 1e-290) {
                 return o.fail(format!("integrals not additive over a short first panel of width {delta:e}: {i_ad:e} + {i_db:e} != {i_ab:e}"));
             }
             if (fd - fa).norm() > 4.0 * g * (sa + sd) {
